@@ -40,6 +40,7 @@ class GL:
         self.may_oob = False
         self.features = set()
         self.call_depth = 0
+        self.leaky = False     # scope-loose programs: names of closed scopes may stay visible to the generator
 
     # -- helpers -----------------------------------------------------------------------
     def d(self, s):
@@ -432,8 +433,16 @@ class GL:
         self.scopes.append({})
         n = self.d(st.integers(1, 3))
         out = [self.stmt(depth) for _ in range(n)]
-        self.scopes.pop()
+        self._close_scope()
         return M.Block([s for s in out if s is not None])
+
+    def _close_scope(self):
+        sc = self.scopes.pop()
+        if self.leaky and sc and self.scopes and self.chance(45):
+            # the generator (not the language) keeps the names: later statements may name variables whose scope has
+            # ended - the front end must refuse those programs
+            self.scopes[-1].update(sc)
+            self.features.add("names-of-a-closed-scope-kept")
 
     def stmt(self, depth):
         self.budget -= 1
@@ -463,6 +472,19 @@ class GL:
                     self.features.add("void-call")
                     return M.ExprStmt(M.Call(f.name, args, M.VOID, i))
             return M.ExprStmt(self.scalar(2))
+        if r < 62 and self.leaky and self.chance(40):
+            # a declaration as the unbraced body of an if / while: its scope ends with that statement
+            d = self.decl()
+            if isinstance(d, M.Decl):
+                self.features.add("unbraced-declaration-body")
+                cond = self.scalar(1)
+                st_ = M.If(cond, d) if self.chance(70) else M.While(M.Bin("<", cond, M.Lit(0, INT, "0")), d)
+                if d.ty[0] in "svm" and self.chance(70):
+                    # ... and the name is used right behind that statement
+                    v = M.Var(d.name, d.ty)
+                    return M.Block([st_, M.ExprStmt(M.Assign(v, "=", v))])
+                return st_
+            return d
         if r < 62:
             if self.ret_ty == M.VOID:
                 return M.If(self.scalar(1), M.Block([M.Return(None)]))
@@ -472,7 +494,7 @@ class GL:
             c = self.scalar(2)
             then = self.body(depth - 1)
             els = self.body(depth - 1) if self.chance(40) else None
-            self.scopes.pop()
+            self._close_scope()
             return M.If(c, then, els)
         if r < 86:
             self.scopes.append({})
@@ -567,6 +589,7 @@ class LooseCase(gen.Case):
 @st.composite
 def loose_case(draw, n_inputs=2):
     g = GL(draw)
+    g.leaky = g.chance(15)
     if g.chance(55):
         inner = None
         if g.chance(35):
